@@ -791,6 +791,18 @@ func (r *vpRun) register(w *vpWorld) {
 		}
 		r.stats["reg_form:"+reg.form]++
 	}
+	// constructors number their products after the registered values that made it into the collection
+	w.nextInst = 0
+	for _, reg := range w.regs {
+		if reg.form != "inst" {
+			continue
+		}
+		if !reg.added {
+			delete(w.byInst, reg.inst.Inst)
+		} else if reg.inst.Inst > w.nextInst {
+			w.nextInst = reg.inst.Inst
+		}
+	}
 	index := map[*Descriptor]int{}
 	for i, d := range w.coll.allDescriptors {
 		index[d] = i
@@ -1845,7 +1857,9 @@ func (w *vpWorld) generate(o vpGenOpts) {
 		case "inst":
 			obj := reflect.New(slotType(reg.outs[0].slot).Elem())
 			b := obj.Interface().(vpObj).base()
-			*b = vpBase{Ctor: reg.idx + 1, Inst: 900 + reg.idx, Life: reg.life, ScopeN: 0, w: w}
+			// registered values exist before Build: they carry the smallest instance ids
+			w.nextInst++
+			*b = vpBase{Ctor: reg.idx + 1, Inst: w.nextInst, Life: reg.life, ScopeN: 0, w: w}
 			w.byInst[b.Inst] = b
 			reg.inst = b
 			reg.fn = obj.Interface()
